@@ -29,13 +29,16 @@ PROP = dict(
     level='proof',
     regen=['consts', 'csvprofile'],
     theorems=['Fit.C19.C19_columns', 'Fit.C19.C19_columns_trim', 'Fit.C19.C19_tables', 'Fit.C19.C19_field_roundtrip_raw', 'Fit.C19.C19_raw_roundtrip_partial', 'Fit.C19.C19_scaled_roundtrip', 'Fit.C19.C19_sequences_partial',
-              'Fit.C19.C19_scalar_roundtrip_raw'],
+              'Fit.C19.C19_scalar_roundtrip_raw', 'Fit.C19.C19_scaled_roundtrip_profile', 'Fit.C19.C19_array_roundtrip', 'Fit.C19.C19_field_roundtrip_value',
+              'Fit.C19.C19_unknown_field_roundtrip', 'Fit.C19.C19_dev_field_roundtrip', 'Fit.C19.C19_dev_float_scale_fixed', 'Fit.C19.C19_subfield_roundtrip', 'Fit.C19.C19_removes_expansion_targets',
+              'Fit.C19.C19_roundtrip_partial'],
     families=[dict(name='csv', prop=True)],
     extra=_extra,
     trusted_base=STD_TRUST + [
         "the profile as the converters see it (factory fields: name, units, base type, array, scale/offset bits, component targets, sub-fields and their maps; MesgNum.String(); the reader's mesgNumLookup / fieldNumLookup through the verif hooks) is printed from the compiled packages on every run (Generated/CsvProfile.lean)",
         "text layer assumed, not modelled: strconv (decimal ↔ integer, shortest float text ↔ float64), encoding/csv quoting, unicode.IsPrint",
-        "the arithmetic of the scaled mode is a parameter of the model (hypothesis: parse(format(apply(x))) = x); tested on the implementation through fitcsv.VerifFormat / VerifParseValue on every (base type, scale, offset) of the profile",
+        "the arithmetic of the scaled mode is a parameter of the model, instantiated by Arith.so = kit/scaleoffset + fitcsv.parseValue over the bit-exact binary64 of FitModel/F64.lean (the definitions of C12); the driver runs it and the `csvarith` operations compare it with fitcsv.VerifFormat / VerifParseValue on every (base type, scale, offset) of the profile; C12_csv discharges the round-trip hypothesis for every scaled profile field (integer types up to 32 bits; no 64-bit field of the profile is scaled)",
+        "text layer assumed, in particular: the text of a scaled value contains a '.' (true for x.0 and for every mantissa of more than one digit; a one-digit mantissa with exponent below -4 such as 1e-05 has none — not produced by any (scale, raw) of the profile)",
         "encoder and decoder between the two converters are those of C01/C10; the family feeds messages that are a fixed point of encode→decode",
     ],
     assumptions=["strings within the safe alphabet (printable, no quote, no `|`); non-empty arrays",
@@ -44,6 +47,6 @@ PROP = dict(
 
 TEXT = dict(
     technique='Lean 4 proof on a cell-level model of fit_to_csv.go / csv_to_fit.go over the regenerated profile table + differential tie driving the real converters in-process (FITToCSVConv as decoder listener with message copy, CSVToFITConv, decode)',
-    text='C19_columns / _trim for any list of lines; C19_tables (regenerated profile and lookup tables consistent, kernel-decided); C19_scalar_roundtrip_raw, C19_field_roundtrip_raw, C19_scaled_roundtrip (under the tested arithmetic hypothesis) and the file-level C19_raw_roundtrip_partial / C19_sequences_partial for chains of files of plain messages; the model is compared with the real converters on generated FIT files over all profile messages (CSV structure, written messages, sequences) and the property predicate is evaluated on the implementation output.',
-    note='Partial: the text layer (strconv, encoding/csv, unicode) is assumed; the scaled-mode arithmetic is a tested hypothesis.',
+    text='C19_columns / _trim for any list of lines; C19_tables (regenerated profile and lookup tables consistent, kernel-decided); cell level: C19_scalar_roundtrip_raw, C19_array_roundtrip, C19_field_roundtrip_raw / _value, C19_scaled_roundtrip_profile (default scaled mode, unconditional for the profile: arithmetic discharged by C12), C19_unknown_field_roundtrip (verbose), C19_dev_field_roundtrip, C19_subfield_roundtrip (substitution, placeholder, reversal), C19_removes_expansion_targets; file level: C19_roundtrip_partial / C19_sequences_partial for chains of files whose messages consist of known fields (scalar/array, raw/unscaled/scaled) and unknown fields/messages (kept with verbose, dropped without), any number of files; the model is compared with the real converters on generated FIT files over all profile messages (CSV structure, written messages, sequences) and the property predicate is evaluated on the implementation output.',
+    note='Partial: the text layer (strconv, encoding/csv, unicode) is assumed; developer fields and sub-field reversal are proved cell by cell, their message-level composition is tied by the correspondence (C19_roundtrip_full stays a def).',
 )
